@@ -158,5 +158,7 @@ def run(ctx):
     ctx.guard("lossy", lambda: run_lossy(ctx))
     ctx.guard("nan-json", lambda: run_nan(ctx))
     ctx.guard("codec", lambda: run_codec(ctx))
+    from vpr import serdeattr
+    ctx.guard("serde", lambda: serdeattr.check(ctx, "serde", ["varpulis_runtime::persistence::Checkpoint"], 40))
     if ctx.tier == "thorough":
         ctx.guard("codec", lambda: run_codec(ctx, "codec"))
